@@ -418,10 +418,8 @@ func blockHandOverRule(r *Run, rule string) {
 	} else {
 		r.Bad(rule, f.Name(), "block after a call", w.Pos(f.Decl.Pos()), "a '{ ... }' that follows a call must be attached to the call node")
 	}
-	// C12.R5 part
-	if ce := w.evalMethod("CallExpression"); ce != nil {
-		c12AutoSupplyBlockOnly(r, rule, ce)
-	}
+	// C12.R5 part: the automatic helper context carries the call's block
+	helperBlockRule(r, rule)
 }
 
 // c12AutoSupplyBlockOnly re-checks only the 'block: node.Block' part of the helper-context literal.
